@@ -192,7 +192,7 @@ P("C15",
      "every announce carries the torrent's info-hash, port and one peer id (the one in the client's peer handshake); left == length of the pieces missing on storage (exact when "
      "quiescent, shape and bounds while downloading; 0 in completed), uploaded/downloaded within the torrent's counters of the run and exact in stopped; first event of a run "
      "started, completed <= 1 and only if the download finished in the run, stopped last and only to trackers that had sent an OK reply",
-     Q(64, 16, 900), T(3200, 16), shrinktime="20s"),
+     Q(160, 16, 900), T(3200, 16), shrinktime="20s"),
   ])
 
 P("C16",
